@@ -235,13 +235,15 @@ Definition after_step (fresh : bool) (m : mxi) : mxi :=
   | Mx.XBusy => if Mx.holds_slock (m_s m1) then m1 else set_ms m1 (mx_x (m_s m1))
   | _ => m1
   end.
-Fixpoint mx_drive (t : Mx.tid) (stop : Mx.state -> bool) (fuel : nat) (m : mxi) : mxi :=
+Definition fresh_step (s s1 : Mx.state) : bool := negb (Nat.eqb (length (Mx.log s1)) (length (Mx.log s))).
+(* driving an inner source's goroutine *)
+Fixpoint mx_drive0 (t : Mx.tid) (stop : Mx.state -> bool) (fuel : nat) (m : mxi) : mxi :=
   match fuel with
   | O => m
   | S f =>
       let s1 := mstep (m_s m) t in
-      let m1 := after_step (negb (Nat.eqb (length (Mx.log s1)) (length (Mx.log (m_s m))))) (set_ms m s1) in
-      if stop (m_s m1) then m1 else mx_drive t stop f m1
+      let m1 := after_step (fresh_step (m_s m) s1) (set_ms m s1) in
+      if stop (m_s m1) then m1 else mx_drive0 t stop f m1
   end.
 Definition run_parked (s : Mx.state) : bool := match Mx.pcr s with Mx.PLock | Mx.PRet => true | _ => false end.
 Definition inner_parked (k : nat) (s : Mx.state) : bool :=
@@ -253,8 +255,8 @@ Definition mx_release (m : mxi) : mxi :=
   match m_held m with
   | None => m
   | Some h =>
-      let m1 := mx_drive (Mx.TIn h) (inner_parked h) 12 m in
-      let m2 := match m_wait m with Some w => mx_drive (Mx.TIn w) (inner_parked w) 12 m1 | None => m1 end in
+      let m1 := mx_drive0 (Mx.TIn h) (inner_parked h) 12 m in
+      let m2 := match m_wait m with Some w => mx_drive0 (Mx.TIn w) (inner_parked w) 12 m1 | None => m1 end in
       mkMxi (m_s m2) (m_arm m2) (m_hold m2) None None
   end.
 Definition mx_deliver (k : nat) (m : mxi) : mxi :=
@@ -264,16 +266,30 @@ Definition mx_deliver (k : nat) (m : mxi) : mxi :=
       match m_wait m with
       | Some _ => m
       | None =>
-          let m1 := mx_drive (Mx.TIn k) (inner_parked k) 12 m in
+          let m1 := mx_drive0 (Mx.TIn k) (inner_parked k) 12 m in
           if wants_lock k (m_s m1) then mkMxi (m_s m1) (m_arm m1) (m_hold m1) (m_held m1) (Some k) else m1
       end
   | None =>
-      let m1 := mx_drive (Mx.TIn k) (fun s => inner_parked k s || (m_hold m && in_handler_k k s)) 12 m in
+      let m1 := mx_drive0 (Mx.TIn k) (fun s => inner_parked k s || (m_hold m && in_handler_k k s)) 12 m in
       if m_hold m && in_handler_k k (m_s m1) then mkMxi (m_s m1) (m_arm m1) false (Some k) None else m1
+  end.
+(* driving the Run goroutine: an injection that fires under sourcesLock (points 22-24: the Shutdown started there closes the
+   terminating channel and then waits for the lock) is followed, before the Run goroutine goes on, by the release of a parked
+   handler call — the waiting source makes its test while the source is terminating and not yet terminated *)
+Fixpoint mx_drive (stop : Mx.state -> bool) (fuel : nat) (m : mxi) : mxi :=
+  match fuel with
+  | O => m
+  | S f =>
+      let s1 := mstep (m_s m) Mx.TRun in
+      let fresh := fresh_step (m_s m) s1 in
+      let fired := fresh && arm_hit (m_arm m) s1 in
+      let m1 := after_step fresh (set_ms m s1) in
+      let m2 := if fired && Mx.holds_slock (m_s m1) then mx_release m1 else m1 in
+      if stop (m_s m2) then m2 else mx_drive stop f m2
   end.
 Definition mx_cmd (fuel : nat) (m : mxi) (c : mcmd) : mxi :=
   match c with
-  | CRound => mx_drive Mx.TRun run_parked fuel m
+  | CRound => mx_drive run_parked fuel m
   | CDeliver k => mx_deliver k m
   | CShutdown => set_ms m (mx_x (m_s m))
   | CArm p n => mkMxi (m_s m) (Some (p, n)) (m_hold m) (m_held m) (m_wait m)
@@ -287,7 +303,7 @@ Definition mx_model (nslots : nat) (sup : list (list iev)) (cmds : list mcmd) : 
   (* finish: a held call is released; a Shutdown is made if none was; the Run goroutine is released for good *)
   let m1 := mx_release (fold_left (mx_cmd fuel) cmds m0) in
   let s2 := mx_x (m_s m1) in
-  let m3 := mx_drive Mx.TRun (fun s => match Mx.pcr s with Mx.PRet => true | _ => false end) (4 * fuel) (mkMxi s2 None false None None) in
+  let m3 := mx_drive (fun s => match Mx.pcr s with Mx.PRet => true | _ => false end) (4 * fuel) (mkMxi s2 None false None None) in
   mx_x (m_s m3).
 
 (* mux.before_sleep (point 21) is a gate of the harness, not an observation point: removed on both sides *)
